@@ -58,12 +58,20 @@ class Mem
         std::string verify_one(const void *p, bool *is_canary = nullptr) const;
 
         size_t bytes_mapped() const { return bump_; }
+        // address policy of the run (a pure function of the plan seed, so paired runs still see identical addresses):
+        // some runs place a share of their buffers across a 4 GiB-aligned address
+        void set_addr_policy(uint64_t seed);
+        size_t straddled() const { return straddled_; }
 
       private:
         uint8_t *base_;
         size_t cap_;
         size_t bump_;
         std::vector<MemBuf> bufs_;
+        Rng arng_;
+        unsigned straddle_rate_ = 0;
+        size_t straddled_ = 0;
+        bool alloc_straddling(MemBuf &b, size_t n, size_t align);
 };
 
 // ---- fault catching around library calls
